@@ -1,6 +1,6 @@
 """C07 -- row-wise scans and reorderings equal numpy applied to each row."""
 import numpy as np
-from ..core import CTX, attempt, held, violated, undefined, same_array, peek, short, lists_same
+from ..core import CTX, attempt, held, violated, undefined, same_array, peek, short, lists_same, same_dtype
 from .. import gen, contracts
 from . import c02
 
@@ -137,7 +137,7 @@ def run_once(case, rewrite):
                                 got=[r.tolist() for r in grows], expected=[np.asarray(x).tolist() for x in exp])
         if tot > 0 and what != "counts":
             ed = np.concatenate([np.asarray(e) for e in exp]).dtype if exp else dt
-            if got.dtype != ed and sum(len(e) for e in exp) > 0:
+            if not same_dtype(got.dtype, ed) and sum(len(e) for e in exp) > 0:
                 return violated("%s: %s has dtype %s, numpy gives %s" % (desc, what, got.dtype, ed), tags + ["dtype-differs"])
     if not lists_same(peek(ra), [r.tolist() for r in rows]):
         return violated("%s modified its operand" % desc, tags + ["operand-mutated"])
